@@ -1,8 +1,10 @@
 ID = 'C14'
 UNITS = {'fs': dict(wrap='wrap.cc', new_block=64),
-         # read_all: 16 KiB std::string blocks -> operator-new block 16400 bytes; the 16384-byte zero fill is one constant memset
-         'fsbig': dict(wrap='wrap.cc', new_block=16400, gen_defs=['VERIF_MEMSET_BULK_N=16384', 'VERIF_NEW_BLOCK_SMALL=160'],
-                       cuts=[r'^_ZN5phosg8io_errorC1Ei$']),
+         # read_all: the internal block size `static const ssize_t read_size = 16 * 1024;` is not a macro; with the real value
+         # no query returns (measured, see NOTES.md). The unit is built from a copy of Filesystem.cc in which that one
+         # initialiser is VERIF_READ_SIZE (both builds, generated and real).
+         'fsrs4': dict(wrap='wrap.cc', new_block=64, cxxflags=['-DVERIF_READ_SIZE=4'], cuts=[r'^_ZN5phosg8io_errorC1Ei$'],
+                       src_subst={'Filesystem.cc': [(r'static const ssize_t read_size = 16 \* 1024;', 'static const ssize_t read_size = VERIF_READ_SIZE;', 2)]}),
          # same TU; the cannot_open_file(const string&) constructor (what() text concatenation only) is an external no-op
          'fsx': dict(wrap='wrap.cc', new_block=64, cuts=[r'^_ZN5phosg16cannot_open_fileC1ERKNSt7__cxx1112basic_string'])}
 BOUNDS = ''
@@ -35,8 +37,8 @@ def queries(tier):
         qs.append(dict(name='sfd_ops%d' % n, unit='fsx', harness='h_sfd.c', defs={'NOPS': n}, unwind=40, timeout=900, mem_gb=8, flags=FS0,
                        desc='scoped_fd: every sequence of %d operations (10 kinds, 2 objects, open may fail) vs an ownership model; every descriptor handed out is closed exactly once' % n,
                        bounds='%d operations, 2 objects' % n))
-    for S in ([0, 1, 2, 3] if tier == 'quick' else [0, 1, 2, 3, 4, 5, 6]):
-        qs.append(dict(name='readall_fd_len%d' % S, unit='fsbig', harness='h_readall.c', defs={'S': S}, unwind=S + 4, timeout=900, mem_gb=10, flags=FS0,
+    for S in ([0, 1, 2, 3, 4, 5] if tier == 'quick' else range(0, 10)):
+        qs.append(dict(name='readall_fd_rs4_len%d' % S, unit='fsrs4', harness='h_readall.c', defs={'S': S, 'RS': 4}, unwind=max(S, 4) + 4, timeout=900, mem_gb=10, flags=FS0,
                        desc='read_all(fd) over a %d-byte symbolic source delivered in every possible chunking (each read returns 1..remaining bytes, then 0), optional read fault: result == source or io_error' % S,
                        bounds='source length == %d; <= %d read calls' % (S, S + 2)))
     return qs
